@@ -15,6 +15,22 @@ pub fn run_property(property: &str, tier: Tier) -> i32 {
     let configs = families::build(family, tier);
     let mut report = Report::new(property, tier, "model_checking");
     run_family_into(&mut report, property, family, configs, tier);
+    // the two properties that speak about every operation and every event order (C01: each operation resolves exactly once;
+    // C11: no panic, no false error) are also judged on every other family's configurations (at those families' quick bounds)
+    if tier == Tier::Thorough && matches!(property, "C01" | "C11") {
+        let mut rows = Vec::new();
+        for other in families::ALL_FAMILIES {
+            if *other == family { continue; }
+            let mut sub = Report::new(property, Tier::Quick, "model_checking");
+            run_family_into(&mut sub, property, other, families::build(other, Tier::Quick), Tier::Quick);
+            rows.push(json!({"family": other, "configs": sub.coverage.get("configs"), "states": sub.coverage.get("states"), "transitions": sub.coverage.get("transitions"), "capped": sub.coverage.get("capped")}));
+            for key in ["states", "transitions", "traces_validated_against_impl", "fair_closures_run"] { if let Some(n) = sub.coverage.get(key).and_then(|v| v.as_u64()) { report.add_count(&format!("neighbour_{}", key), n); } }
+            report.machinery_errors.extend(sub.machinery_errors);
+            report.known_hit.extend(sub.known_hit);
+            for (v, replay) in sub.violations { if !report.violations.iter().any(|(x, _)| x.property == v.property && x.signature == v.signature) { report.violations.push((v, replay)); } }
+        }
+        report.set("neighbour_families", json!(rows));
+    }
     if property == "C10" { super::deque::run(&mut report, tier); }
     if property == "C07" { super::settings::run(&mut report); }
     report.finish()
